@@ -47,12 +47,12 @@ def run(chk):
     layerb.check_sketch_specs(chk, ["ProbMinHash"], quick)
     f, n, res = joinfam.gen_schedules(chk, "c02a", nitems=3, ninst=1, depth=3, maxslice=3, reinit=True)
     chk.cov["schedules_1inst"] = n
-    joinfam.replay_join(chk, f, KINDS, "schedules", stride=25 if quick else 3, ms=[2, 3, 4, 5, 8, 16], prop_tags=tags)
+    joinfam.replay_join(chk, f, KINDS, "schedules", stride=8 if quick else 2, ms=[2, 3, 4, 5, 8, 16], prop_tags=tags)
     f2, n2, res = joinfam.gen_schedules(chk, "c02b", nitems=3, ninst=2, depth=3, maxslice=2)
     chk.cov["schedules_2inst"] = n2
     joinfam.replay_join(chk, f2, ["pmh3+3a", "pmh2@scale", "pmh3@scale", "pmh3a@scale", "pmh3asha@scale"], "3-vs-3a-and-scaling",
-                        stride=12 if quick else 2, ms=[2, 3, 4, 8], prop_tags=tags, seed=chk.seed + 1)
-    joinfam.random_join(chk, KINDS, "random-streams", runs=6 if quick else 40, length=120, nitems=150, ms=[2, 3, 4, 6, 16],
+                        stride=4 if quick else 1, ms=[2, 3, 4, 8], prop_tags=tags, seed=chk.seed + 1)
+    joinfam.random_join(chk, KINDS, "random-streams", runs=16 if quick else 60, length=120, nitems=150, ms=[2, 3, 4, 6, 16],
                         reinit=True, prop_tags=tags)
     joinfam.random_join(chk, KINDS, "random-large-m", runs=2 if quick else 10, length=40, nitems=60, ms=[64, 256],
                         prop_tags=tags, seed=chk.seed + 2)
